@@ -47,6 +47,11 @@ Agree(b, e) ==
   \* inside it, it must answer a number
   IF IsNaN(e.ystd) THEN IsNaN(e.y) \/ b.ulp = -1
   ELSE IF IsNaN(e.y) THEN FALSE
+  ELSE IF IsInf(e.y) # IsInf(e.ystd) THEN FALSE            \* a finite answer where std overflows, or the reverse
+  \* beyond the range of the 2^20 scaling (|value| > ~1900): compare the bit patterns (ordered keys;
+  \* one binade = 2^23 keys), i.e. a relative bound
+  ELSE IF b.ulp < 0 /\ AbsI(e.sstd) >= 1900000000
+       THEN AbsI(e.ky - e.kstd) <= (IF b.rel = 0 THEN 200000 ELSE 33554432 \div b.rel)
   ELSE IF b.ulp >= 0 THEN AbsI(e.ky - e.kstd) <= b.ulp
   ELSE AbsI(e.sy - e.sstd) <= b.abs + (IF b.rel = 0 THEN 0 ELSE AbsI(e.sstd) \div b.rel)
 
